@@ -71,7 +71,7 @@ class Gen:
 
     def int_(self):
         r = self.rng
-        return r.choice([0, 1, -1, 2, 42, -17, 2 ** 31, -2 ** 63, 10 ** 30, r.randint(-1000, 1000)])
+        return r.choice([0, 1, -1, 2, 42, -17, 2 ** 31, -2 ** 63, 10 ** 30, 2 ** 53 + 1, 2 ** 63 - 1, r.randint(-1000, 1000)])
 
     def float_(self):
         r = self.rng
